@@ -55,8 +55,8 @@ claim('C15', 'proof',
       "CBMC code contracts + ghost heartbeat generations; replay through the atomic-interposition scheduler", "3 C15")
 
 EPN = "Slots are a block of symbolic length K <= 2^10; the coordinator sees every untracked slot as arbitrary (expired, unpinned, or pinning a value <= current epoch); std::vector<size_t> is abstract (size, membership of two tracked values, max/min/last); sort/unique/erase are assumed library contracts. "
-claim('C04', 'proof',
-      "Contracts of EnterEpoch / EpochGuard / CreateEpochGuard / CollectProtectedEpochs (loop invariant over the symbolic capacity) / ForwardGlobalEpoch with one skolemised tracked guard: its epoch is in the list published for the new epoch and the stored minimum does not exceed it; the C15 exit-order obligation of IDManager is part of this property's obligation set. EpochGuard move assignment is specified from the statement (the guard that takes over a grant stays pinned; repaired defect 4a559c4). Two guards of one thread alive at once: the nested case is a recorded known finding (client-level lemma group epoch.nested_guards, replayed on the real code).",
+claim('C04', 'other',
+      "Proof of every obligation but one: the nested-guard lemma fails on the pinned tree and is a recorded known finding (so this is not a proof of the whole property). Contracts of EnterEpoch / EpochGuard / CreateEpochGuard / CollectProtectedEpochs (loop invariant over the symbolic capacity) / ForwardGlobalEpoch with one skolemised tracked guard: its epoch is in the list published for the new epoch and the stored minimum does not exceed it; the C15 exit-order obligation of IDManager is part of this property's obligation set. EpochGuard move assignment is specified from the statement (the guard that takes over a grant stays pinned; repaired defect 4a559c4). Two guards of one thread alive at once: the nested case is a recorded known finding (client-level lemma group epoch.nested_guards, replayed on the real code).",
       TB + EPN + "List-node chain operations are replaced by contracts inside ForwardGlobalEpoch (checked bounded under C20).", "CBMC code contracts with skolemised tracked guard", "3 C04")
 claim('C16', 'proof',
       "Step guarantees on the two epoch words (global epoch written only by the coordinator, +1 per call, release order; min <= current at its store), LeaveEpoch / guard destruction unpin, quiescent case: the published list is exactly {new, new-1} and min = new-1; constructor state checked on the extracted constructor.",
